@@ -69,7 +69,6 @@ from static_frame.core.util import immutable_filter
 from static_frame.core.util import IndexConstructor
 from static_frame.core.util import IndexInitializer
 from static_frame.core.util import INT_TYPES
-from static_frame.core.util import intersect1d
 from static_frame.core.util import is_callable_or_mapping
 from static_frame.core.util import isin
 from static_frame.core.util import isna_array
@@ -990,8 +989,7 @@ class Series(ContainerOperand):
             # choose a fill value that will not force a type coercion
             fill_value = dtype_to_fill_value(value_dtype)
             # find targets that are NaN in self and have labels in value; otherwise, might fill values after reindexing, and end up filling a fill_value rather than keeping original (na) value
-            labels_common = intersect1d(self.index.values[sel], value.index.values)
-            sel = self.index.isin(labels_common)
+            sel = sel & self.index.isin(value.index.values)
             if not np.any(sel): # avoid copying, retyping
                 return self
 
